@@ -437,3 +437,43 @@ def check_c11(tier, t0):
 
 
 CHECKS["C11"] = check_c11
+
+
+# ------------------------------------------------------------------------------------------------
+# C06  amounts and rates
+# ------------------------------------------------------------------------------------------------
+def check_c06(tier, t0):
+    from common import run_tlc, tlc_require_clean, extract_json_lines, workdir
+    wd = workdir("C06-%s" % tier)
+    cfg = "Decimal_thorough.cfg" if tier == "thorough" else "Decimal_quick.cfg"
+    mc = run_tlc("MC_Decimal.tla", cfg, wd, timeout=1500)
+    if mc["violated"]:
+        raise ToolError("design-level invariant %s violated in Decimal.tla" % mc["violated"])
+    tlc_require_clean(mc, "Decimal")
+    cases = os.path.join(wd, "cases.ndjson")
+    n = extract_json_lines(mc["out_path"], cases)
+    os.remove(mc["out_path"])
+    out = os.path.join(wd, "out.json")
+    run_harness(["amounts", "--cases", cases, "--out", out])
+    s = json.load(open(out))
+    vio = [{"sig": v["sig"], "replay": v["replay"]} for v in s["violations"]]
+    log("[C06] %d amount texts (%d accepted and compared in MT and JSON), %d violation classes" %
+        (s["evaluated"], s["accepted_and_compared"], len(vio)))
+    cov = {
+        "states": mc["distinct"], "transitions": mc["generated"], "traces_validated_against_impl": 0,
+        "evaluations": s["evaluated"], "distinct_nontrivial": s["accepted_and_compared"],
+        "rule": "20 amount/rate-bearing field types x currency precision class {0,2,3,4} (JPY, USD, BHD, CLF) x integer digits x "
+                "fraction digits 0..5 x 13 spelling classes (3 decimal, 10 non-decimal); distinct_nontrivial = accepted texts whose "
+                "value was compared digit-exactly in re-serialised MT, JSON and the JSON round trip",
+        "samples": s["samples"] or [{}],
+        "panics_noted_for_C07": s["panics_noted_for_C07"],
+        "exhaustive": True, "exhaustive_scope": "the finite abstract space of %s; one concrete digit pattern per (n, f)" % cfg,
+    }
+    assumptions = ["both ',' and '.' count as the decimal separator (the library's unit tests document '.' as accepted)",
+                   "an amount written without separator is accepted (documented by the library's unit tests)",
+                   "trailing-zero fractions beyond the currency precision (JPY1,00) are outside the enumerated space",
+                   "field 36 is enumerated up to 5 integer digits (its documented plausibility range)"]
+    return report("C06", tier, "model_checking", vio, cov, assumptions, t0)
+
+
+CHECKS["C06"] = check_c06
